@@ -134,7 +134,7 @@ func genC14(c *ctx) {
 		p.JSONTwin, p.HalfTyped, p.Odd, p.Layout = true, 0, false, false
 	}
 	c.makeWorld(p)
-	args := [][]string{{""}, {"", "a"}, {"na", "", "zzz-miss"}, {"\"", "aws", ""}}[c.n(4)]
+	args := [][]string{{""}, {"", "a"}, {"na", "", "zzz-miss"}, {"\"", "aws", ""}, {"a", "aw", "aws_"}, {"\" \"", " ", "e \""}, {"", "r", "re"}}[c.n(7)]
 	chk := func() *h.Check { return &h.Check{Key: c.key(), Args: args} }
 	c.add(&h.Event{K: "quiesce"})
 	c.add(&h.Event{K: "check", Check: chk()})
